@@ -17,6 +17,7 @@ def run(chk, repo):
         'C03.b within one call graph each header string gets its index from exactly one counter increment; duplicates within a peptide are filtered first',
         'C03.c cleavage-gain bookkeeping handed to each outgoing cursor is a copy, so in-place extensions cannot leak into sibling branches',
         'C03.d a Sec-truncated peptide keeps in its header every variant ending at or before the Sec codon start',
+        'C03.g the cursor whose ORF / start-gain variants are propagated into a node is selected from node and traversal state only (never from the last staged edge)',
     ]
     chk.not_decided = ['that exactly the named variants, applied to the backbone, yield the peptide', 'global uniqueness across graphs']
 
@@ -98,6 +99,30 @@ def run(chk, repo):
     # ------------------------------------------------------------------ d
     sec_variant_filter(chk, repo, 'C03.d')
     leading_node_sibling(chk, repo, 'C03.e')
+
+    # ------------------------------------------------------------------ g
+    chk.rule('C03.g', 'R-EFFECT: the winning cursor of a node is chosen independently of the order its in-edges were staged', 1)
+    sq = 'svgraph.PeptideVariantGraph:PVGTraversal.stage'
+    sf = repo.func(sq)
+    chk.uses(sf)
+    ps = sf.params()
+    if len(ps) != 4:
+        raise AnalysisError(f"anchor={sq}: expected (self, in_node, out_node, cursor)")
+    last_edge = {ps[1], ps[3]}
+    gate = [i for i, st in enumerate(sf.node.body) if isinstance(st, ast.If) and G.block_leaves(st.body) and not st.orelse
+            and 'len(' in unparse(st.test) and f"{ps[2]}.in_nodes" in unparse(st.test)]
+    if len(gate) != 1:
+        raise AnalysisError(f"anchor={sq}: the all-in-edges-staged gate was not found")
+    reads = []
+    for st in sf.node.body[gate[0] + 1:]:
+        for n in ast.walk(st):
+            if isinstance(n, ast.Name) and n.id in last_edge and isinstance(n.ctx, ast.Load):
+                reads.append(f"{repo.loc(sf, n)}: `{norm_stmt(repo.enclosing_stmt(n))[:70]}`")
+    chk.ob('C03.g', f"after the gate `{unparse(sf.node.body[gate[0]].test)}` nothing reads {sorted(last_edge)} (the edge that happened to be staged last)",
+           repo.loc(sf, sf.node.body[gate[0]]), not reads,
+           f"the selection among the pooled cursors reads the last staged edge at {reads}: which ORF / start-gain variants are propagated to the node then "
+           "depends on the visiting order of its in-edges, so downstream peptides can be labelled with the wrong frameshift / start-gain variants",
+           key=sq + '::order-independent', fn=sf.qual)
 
 
 def sec_variant_filter(chk, repo, rid):
